@@ -29,12 +29,13 @@ func init() {
 // ---- in-memory message pipe ----
 
 type pipeEnd struct {
-	in      chan []byte
-	out     chan []byte
-	closed  chan struct{}
-	peer    *pipeEnd
-	once    sync.Once
-	onClose func()
+	in         chan []byte
+	out        chan []byte
+	closed     chan struct{}
+	peer       *pipeEnd
+	once       sync.Once
+	onClose    func()
+	closeDelay time.Duration
 }
 
 func newPipe() (*pipeEnd, *pipeEnd) { return newPipeCap(256) }
@@ -84,6 +85,9 @@ func (p *pipeEnd) WriteMessage(b []byte) error {
 
 func (p *pipeEnd) Close() error {
 	p.once.Do(func() {
+		if p.closeDelay > 0 {
+			time.Sleep(p.closeDelay)
+		}
 		close(p.closed)
 		if p.onClose != nil {
 			p.onClose()
@@ -142,6 +146,7 @@ type world struct {
 	blockGate gate
 	maxConns  int
 	dialViol  string
+	slowClose time.Duration
 }
 
 func (w *world) logServe(id int) {
@@ -171,6 +176,7 @@ func (w *world) dial(network, address, codec string) (*rpc.Conn, error) {
 	id := len(w.conns)
 	ci := &connInfo{id: id, addr: address}
 	cend.onClose = func() { atomic.StoreInt32(&ci.closed, 1) }
+	cend.closeDelay = w.slowClose
 	srv := rpc.NewServer()
 	srv.SetLogLevel(rpc.OffLogLevel)
 	srv.RegisterName("Svc", &Svc{w: w, connID: id, addr: address, gen: s.gen})
@@ -676,6 +682,9 @@ func runPool(work, prop string) {
 			e.sample(map[string]interface{}{"limits": limits, "keepalive": ka, "idle_timeout": it, "trace": r.trace})
 		}
 	}
+	if prop == "C13" {
+		poolStress(e)
+	}
 	e.Res.Rule = "seeded random histories of Transport operations (Call/Ping per address, calls held in their handler across steps, housekeeping ticks, virtual-time advances around KeepAlive/IdleConnTimeout by backdating, CloseIdleConnections, server kill/restart, Close) over 1-3 addresses and limits {1,1},{2,1},{2,2},{3,2},{2,5},{0,0},{-1,3},{4,4},{3,1}; every operation is checked as one model step from the abstract state read before it to the one read after it; non-trivial = distinct (limits, operation-shape sequence)"
 	names := writeCases(work, "From Coq Require Import List ZArith. Import ListNotations. From RPC Require Import RunPool. Open Scope Z_scope.", "anycase", cases, 150)
 	e.Res.ModelCases = len(cases)
@@ -755,5 +764,59 @@ func (r *poolRun) script(i int) {
 				r.close()
 			}
 		}
+	}
+}
+
+// concurrent callers against servers that are killed and restarted, with sockets that take a
+// moment to close: the number of open connections is checked at every dial (uncontrolled
+// interleavings; supporting exploration for the window between marking a connection dead and
+// closing it)
+func poolStress(e *Env) {
+	rounds := 6
+	if e.thorough() {
+		rounds = 60
+	}
+	for k := 0; k < rounds; k++ {
+		limits := [][2]int{{1, 1}, {2, 1}, {3, 2}}[k%3]
+		r := newPoolRun(e, "C13", limits[0], limits[1], 1000, 1000, 1)
+		r.w.slowClose = 800 * time.Microsecond
+		a := r.addrs[0]
+		var wg sync.WaitGroup
+		stop := make(chan struct{})
+		for g := 0; g < 8; g++ {
+			wg.Add(1)
+			go func(g int) {
+				defer wg.Done()
+				for {
+					select {
+					case <-stop:
+						return
+					default:
+					}
+					req, res := []byte{byte(g)}, []byte(nil)
+					if g%3 == 0 {
+						r.t.Ping(a)
+					} else {
+						r.t.Call(a, "Svc.Echo", &req, &res)
+					}
+				}
+			}(g)
+		}
+		for j := 0; j < 12; j++ {
+			time.Sleep(3 * time.Millisecond)
+			r.w.kill(a)
+			time.Sleep(2 * time.Millisecond)
+			r.w.restart(a)
+		}
+		close(stop)
+		wg.Wait()
+		r.w.mu.Lock()
+		v := r.w.dialViol
+		r.w.mu.Unlock()
+		if v != "" {
+			e.fail("C13-conn-limit-at-dial", "concurrent callers with a server that is killed and restarted: "+v, map[string]interface{}{"limits": limits, "round": k, "seed": e.Seed})
+		}
+		r.t.Close()
+		e.count("stress", fmt.Sprintf("stress-%v-%d", limits, k))
 	}
 }
